@@ -87,7 +87,7 @@ def check_case(case):
     if not (same_pre and same_eff):
         why = c01.behaviour_differs(world, exp["params"], exp["pre"] or ["and"], exp["eff"], x_pre, x_eff,
                                     case["probes"] + c01.derived_probes(case, dom, objects), a["name"])
-        if why:
+        if why and why != "undecided":
             part = why if why in ("pre", "eff") else ("pre" if not same_pre else "eff")
             res.bad(f"C18/schema/{part}-not-alpha-equivalent",
                     {**info, "expected": exp["pre"] if part == "pre" else exp["eff"], "read_back": x_pre if part == "pre" else x_eff})
